@@ -182,6 +182,8 @@ func ReaderFromDelta(base plumbing.EncodedObject, deltaRC io.Reader) (io.ReadClo
 						return
 					}
 					baseBuf.Reset(baseRd)
+					// The reopened reader starts at the beginning of the base.
+					basePos = 0
 					discard = offset
 				}
 				for discard > math.MaxInt32 {
